@@ -1,7 +1,9 @@
 (* C03 - Nothing on the destination is deleted or overwritten without configured consent.
    Statements only (proofs: Proofs/ConfirmProofs.v, Proofs/SyncProofs.v, Proofs/FsProofs.v). *)
 From RJ Require Import Base.Prelude Base.OrderedPlan Model.Settings Model.Core Model.Fs Model.Sync
-  Spec.PlanSpec Proofs.FsProofs Proofs.ConfirmProofs Proofs.SyncProofs.
+  Spec.PlanSpec Spec.Mirror Proofs.FsProofs Proofs.ConfirmProofs Proofs.SyncProofs Proofs.MirrorProofs Proofs.InstanceProofs
+  Proofs.CrashProofs Proofs.CrashMain Proofs.TouchedProofs Proofs.ConsentAll Proofs.KillEvents.
+From RJ Require Import Model.Paths Model.SyncTop.
 
 (* A destination entry stays in the delete list (= a Delete* command is issued for it) only if the
    entry-deletion behaviour is "delete", or it is "prompt" and some prompt was answered "delete".
@@ -73,6 +75,33 @@ Theorem C03_skip_keeps_partial : forall now_z normalize chunker cfg S D ans bits
   fget (d_fs (r_dest r)) p = fget (d_fs D) p.
 Proof. exact sync_frame. Qed.
 
+(* END TO END, for all runs: whenever an existing destination entry is no longer what it was - at the end of a
+   run, successful or failed, or in any state a kill can leave behind - the consent of its category was
+   configured or given: the entry-deletion setting for an entry that is gone or replaced, the newer / older /
+   same-time setting for an existing file whose bytes or time changed.  (Composition of C07's
+   "only planned changes" with the confirmation theorems above and the plan's facts; the F6a repair -
+   nothing is copied at or below a kept entry - is what makes the skipped-deletion case go through.) *)
+Theorem C03_end_to_end : forall now_z incl normalize chunker,
+  forall cfg S D ans bits ls ld,
+  valid_listing now_z incl normalize S ls -> valid_listing now_z incl normalize (d_fs D) ld -> wf_fs (d_fs D) -> d_open D = None ->
+  let steps := snd (sync_plan now_z normalize chunker cfg S D ans bits ls ld) in
+  forall s, Touched (cf_fl cfg) S (d_fs D) (cmd_of_plan steps) (file_of_plan steps) s ->
+  forall p n, fget (d_fs D) p = Some n -> fget (d_fs s) p <> Some n ->
+    entry_consent cfg ans \/
+    ((exists m d m' d', n = NFile m d /\ fget (d_fs s) p = Some (NFile m' d')) /\ overwrite_consent cfg ans).
+Proof. intros now_z incl normalize chunker. exact (consent_end_to_end now_z incl normalize chunker). Qed.
+
+Theorem C03_end_to_end_executable : forall cfg S D a ans bits ex ft s,
+  unique_keys S -> wf_fs S -> unique_keys D -> wf_fs D ->
+  let ls := list_fs now_far (excl_incl ex) normalize_unix S in
+  let ld := list_fs now_far (excl_incl ex) normalize_unix D in
+  (In s (sync_kill_states now_far normalize_unix chunk_real cfg S (world D a []) ans bits ls ld ft) \/
+   s = r_dest (run_top cfg S D a ans bits ex ft)) ->
+  forall p n, fget D p = Some n -> fget (d_fs s) p <> Some n ->
+    entry_consent cfg ans \/
+    ((exists m d m' d', n = NFile m d /\ fget (d_fs s) p = Some (NFile m' d')) /\ overwrite_consent cfg ans).
+Proof. exact consent_executable. Qed.
+
 (* Non-vacuity: a prompt answered "skip once" then "delete all" on three extra entries. *)
 Example C03_example :
   let e := (EFile 1 1, NotOnSource) in
@@ -83,3 +112,5 @@ Proof. vm_compute. reflexivity. Qed.
 Print Assumptions C03_delete_needs_consent.
 Print Assumptions C03_overwrite_needs_consent.
 Print Assumptions C03_error_is_clean.
+Print Assumptions C03_end_to_end.
+Print Assumptions C03_end_to_end_executable.
